@@ -25,7 +25,7 @@ fn resume_option_p() -> impl Parser<StringView, Output = ResumeOption, Error = P
 }
 
 fn blank_resume() -> impl Parser<StringView, Output = ResumeOption, Error = ParserError> {
-    peek_eof_or_statement_separator().map(|_| ResumeOption::Bare)
+    lead_opt_ws(peek_eof_or_statement_separator()).map(|_| ResumeOption::Bare)
 }
 
 fn resume_next() -> impl Parser<StringView, Output = ResumeOption, Error = ParserError> {
